@@ -2,6 +2,7 @@ package main
 
 import (
 	"fmt"
+	"go/constant"
 	"go/token"
 	"go/types"
 	"strings"
@@ -78,7 +79,7 @@ func r13_4(c *Ctx, a *parserAnchors) {
 			continue
 		}
 		nerr, ntol := 0, 0
-		complete := a.enumPaths(f.Blocks[0], func(facts []pathFact, blocks []*ssa.BasicBlock, last *ssa.BasicBlock) {
+		onPath := func(facts []pathFact, blocks []*ssa.BasicBlock, last *ssa.BasicBlock, forced ssa.Value) {
 			ret, ok := last.Instrs[len(last.Instrs)-1].(*ssa.Return)
 			if !ok {
 				return
@@ -113,6 +114,9 @@ func r13_4(c *Ctx, a *parserAnchors) {
 					return
 				}
 				v := unwrapDeferResult(ret.Results[0])
+				if forced != nil {
+					v = forced
+				}
 				switch {
 				case isTrueConst(v):
 					c.ok(key, ret.Pos(), "answers true")
@@ -128,6 +132,21 @@ func r13_4(c *Ctx, a *parserAnchors) {
 					}
 				}
 			}
+		}
+		complete := a.enumPaths(f.Blocks[0], func(facts []pathFact, blocks []*ssa.BasicBlock, last *ssa.BasicBlock) {
+			// a computed bool result is split into the ways it can be true / false
+			if ret, ok := last.Instrs[len(last.Instrs)-1].(*ssa.Return); ok && len(ret.Results) == 1 {
+				v := unwrapDeferResult(ret.Results[0])
+				if b, isB := v.Type().Underlying().(*types.Basic); isB && b.Kind() == types.Bool && !isTrueConst(v) && !isFalseConst(v) {
+					if alts := a.returnAlternatives(v, facts, blocks, last); len(alts) > 0 {
+						for _, ra := range alts {
+							onPath(ra.facts, blocks, last, ssa.NewConst(constant.MakeBool(ra.val), v.Type()))
+						}
+						return
+					}
+				}
+			}
+			onPath(facts, blocks, last, nil)
 		})
 		if !complete {
 			c.unres(site.name+": paths", f.Pos(), "too many paths")
@@ -175,6 +194,49 @@ func r13_1(c *Ctx, a *parserAnchors) {
 				}
 			}
 			if !onlyCond {
+				// the flag as (part of) a bool result — `return terminated || p.tolerant`: the run with the flag false
+				// answers differently from the tolerant run there, so on every path that takes its answer from this read
+				// with the flag false an error must have been recorded before
+				if feedsOnlyResult(u) {
+					bad := ""
+					paths := 0
+					complete := a.enumPaths(f.Blocks[0], func(facts []pathFact, blocks []*ssa.BasicBlock, last *ssa.BasicBlock) {
+						ret, ok := last.Instrs[len(last.Instrs)-1].(*ssa.Return)
+						if !ok || len(ret.Results) != 1 || phiOnPath(ret.Results[0], blocks) != ssa.Value(u) {
+							return
+						}
+						// strict run: flag false, unless the path has already seen it true
+						for _, pf := range facts {
+							if pf.at.kind == atFlag && pf.at.fld == a.tolerant && !pf.at.neg {
+								return
+							}
+						}
+						paths++
+						recorded := false
+						for _, blk := range blocks {
+							if blk == u.Block() {
+								break
+							}
+							for _, call := range callsIn(blk) {
+								if a.errRecorders[call.Call.StaticCallee()] {
+									recorded = true
+								}
+							}
+						}
+						if !recorded {
+							bad = "a path returns the flag as its answer without having recorded an error: strict and tolerant mode can differ on a program that produces no error"
+						}
+					})
+					switch {
+					case !complete:
+						c.unres(key, u.Pos(), "too many paths")
+					case bad != "":
+						c.bad(key, u.Pos(), "%s", bad)
+					default:
+						c.ok(key, u.Pos(), "the flag is the function's answer only on %d path(s) that recorded an error first (or saw the flag set)", paths)
+					}
+					return
+				}
 				c.bad(key, u.Pos(), "the tolerant flag is used other than as a branch condition: it can influence the tree of an error-free program")
 				return
 			}
@@ -195,6 +257,40 @@ func r13_1(c *Ctx, a *parserAnchors) {
 			}
 		})
 	}
+}
+
+// feedsOnlyResult: the loaded value is used only as the function's bool result (directly or through the phis of a
+// short-circuit expression).
+func feedsOnlyResult(u *ssa.UnOp) bool {
+	seen := map[ssa.Value]bool{}
+	var ok func(v ssa.Value) bool
+	ok = func(v ssa.Value) bool {
+		if seen[v] {
+			return true
+		}
+		seen[v] = true
+		refs := v.Referrers()
+		if refs == nil {
+			return false
+		}
+		n := 0
+		for _, r := range *refs {
+			switch x := r.(type) {
+			case *ssa.DebugRef:
+			case *ssa.Return:
+				n++
+			case *ssa.Phi:
+				n++
+				if !ok(x) {
+					return false
+				}
+			default:
+				return false
+			}
+		}
+		return n > 0
+	}
+	return ok(u)
 }
 
 // errorBeforeExit explores all paths from b; returns "" if every path records an error before returning or advancing.
